@@ -34,6 +34,11 @@ pub fn enum_mll(seed: u64) -> Vec<String> {
             let n = 3 + rng.below(2);
             seqs.push((0..n).map(|_| u[rng.below(u.len())].clone()).collect());
         }
+        // seeded random elements (nested lists and complex terms), up to five of them
+        for _ in 0..200 {
+            let n = 1 + rng.below(5);
+            seqs.push((0..n).map(|_| rand_term(&mut rng, 2, 4, true)).collect());
+        }
         for s in seqs {
             if pre(vbar, &s) { out.push(format!("{};{}", if vbar { "t" } else { "f" }, ser_list(&s))); }
             let mut s2 = s.clone();
